@@ -32,7 +32,7 @@ def handlers : List (String → List String → Option String) := [
   Adnl.handle?,
   Heap.handle?,
   Address.handle?,
-  VmStack.handle?
+  VmStack.handle?,
   Cost.handle?
 ]
 
